@@ -49,6 +49,8 @@ func fhdrDec(s *cases.Set, h lorawan.FHDR, up bool, t string, b []byte) {
 			decFail(s, "FHDR.UnmarshalBinary", t, b, "the decoded header changes when the caller overwrites the buffer: "+after)
 		}
 	}
+	// the used receiver as a caller leaves it: counter restored to 32 bits, flags and options of another frame
+	usedFHDR.FCnt |= 0xabcd0000
 	e2 := usedFHDR.UnmarshalBinary(up, append([]byte{}, b...))
 	if e1 != nil || e2 != nil {
 		decFail(s, "FHDR.UnmarshalBinary", t, b, "rejects the bytes the encoder produced")
